@@ -186,6 +186,20 @@ def check(ctx: Ctx, ev: Evidence) -> list[Finding]:
         if e.label == ("state_machine", "METADATA"):
             vfs = [(i, x) for i, x in enumerate(e.ev) if x.kind == "env" and x.name.startswith("vfs.")]
             r5_edge(dst, e, e.ev, vfs, ev, out, once5, "C02-R4")
+    # ---------------- R5: end-to-end completion in the product of both transition systems
+    from ..product import Product
+    ev.rule("C02-R5", "end to end: in the product of both ATSs over a lossless in-order link the transfer can run to successful completion of both sides (definite when unreachable)", 8)
+    for shape in ("file", "metadata_only"):
+        for mode, closure in (("UNACKNOWLEDGED", False), ("UNACKNOWLEDGED", True), ("ACKNOWLEDGED", False), ("ACKNOWLEDGED", True)):
+            P = Product(src, dst, mode, closure, shape)
+            starts = P.initial()
+            g, _s = P.explore(starts, max_states=1500000) if starts else ({}, set())
+            good = P.can_reach_goal(g) if starts else set()
+            okp = any(st in good for st in starts)
+            ev.inst("C02-R5", f"product | {shape}, {mode}, closure={closure}: completion of both sides reachable: {okp} ({len(g)} product states)", "ok" if okp else "violation")
+            if not okp:
+                out.append(Finding("C02-R5", f"product | {shape} transfer, {mode}, closure={closure} | completion unreachable",
+                                   f"over a lossless in-order link the two handlers can never both complete a {shape} transfer successfully in {mode} mode (closure={closure}): some PDU one side emits is never accepted by the other, or a step is never left", ""))
     # ---------------- R2
     for which, a in (("source", src), ("dest", dst)):
         idle = {i for i in a.expanded if state_of(a, a.h.watch(a.nodes[i])) == "IDLE"}
